@@ -194,7 +194,7 @@ def suites(ctx):
 
     # the per-file function must not depend on what the worker formatted before: the purity oracle of C05 (every object
     # held by a cache is unchanged after each rule call) is the hypothesis under which worker assignment cannot matter
-    return [formatfiles_suite(ctx), hashseed_suite(ctx), realfiles_suite(ctx), c05.purity_suite(ctx)]
+    return [formatfiles_suite(ctx), hashseed_suite(ctx), realfiles_suite(ctx)] + c05.purity_suite(ctx)
 
 
 def match_known(d, known):
